@@ -189,8 +189,10 @@ pub fn run(ctx: &Ctx, focus: &str) -> Result<()> {
 				let c = *rng.pick(&comps);
 				let mut stored = vec![((5u8, 9u32, 9u32), compress(Blob::from(b"other".to_vec()), &c).unwrap().into_vec())];
 				if let Some(t) = t { stored.push(((3, 1, 2), compress(Blob::from(enc_tile(t)), &c).unwrap().into_vec())); }
+				// the same tile again on a deeper level, away from the 32-tile grid the stream is cut into
+				if let Some(t) = t { stored.push(((7, 37, 41), compress(Blob::from(enc_tile(t)), &c).unwrap().into_vec())); if j % 2 == 0 { stored.push(((7, 70, 44), compress(Blob::from(enc_tile(t)), &c).unwrap().into_vec())); } }
 				// "other" is not a vector tile, but it lives at another coordinate that is never merged
-				stored.retain(|(c3, _)| c3.0 == 3);
+				stored.retain(|(c3, _)| c3.0 == 3 || c3.0 == 7);
 				if stored.is_empty() { stored.push(((4, 0, 0), compress(Blob::from(enc_tile(&vec![])), &c).unwrap().into_vec())); }
 				// some sources answer at once, others suspend a few times first (real readers do I/O): the result may not depend on it
 				let yields = *rng.pick(&[0usize, 0, 1, 2, 5]);
@@ -232,6 +234,20 @@ pub fn run(ctx: &Ctx, focus: &str) -> Result<()> {
 				let same = match (at.first(), look) { (None, None) => true, (Some((_, b)), Some(l)) => impl_decode(b.as_slice()).map(|d| dump_tile(&d, true)).ok() == impl_decode(l.as_slice()).map(|d| dump_tile(&d, true)).ok(), _ => false };
 				if !same || at.len() > 1 { col.violation("merge-stream-vs-lookup", &desc, &desc, "stream and lookup disagree"); }
 			} else if valid { col.violation("merge-stream-panic", &desc, &desc, "stream panicked"); }
+			// streams over boxes that do not start on the 32-tile grid: exactly the coordinates where a source has a tile, each once,
+			// each with the content the lookup gives there
+			if valid { for bb in [TileBBox::new(7, 33, 40, 72, 45).unwrap(), TileBBox::new(7, 37, 41, 37, 41).unwrap(), TileBBox::new(7, 5, 9, 100, 50).unwrap(), TileBBox::new(7, 36, 0, 37, 127).unwrap(), TileBBox::new(7, 38, 40, 69, 45).unwrap()] {
+				col.spec_cases += 1;
+				let b2 = bb.clone();
+				let s7 = guarded(|| rt.block_on(async { op.get_tile_stream(b2).await.collect().await }));
+				let Ok(items) = s7 else { col.violation("merge-stream-panic", &desc, &desc, &format!("stream over {bb:?} panicked")); break; };
+				let mut got: Vec<(u32, u32, String)> = items.iter().map(|(c, b)| (c.x, c.y, impl_decode(b.as_slice()).map(|d| dump_tile(&d, true)).unwrap_or_else(|e| e))).collect(); got.sort();
+				let mut exp: Vec<(u32, u32, String)> = Vec::new();
+				for (x, y) in [(37u32, 41u32), (70, 44)] { if !bb.contains2(&versatiles_core::types::TileCoord2::new(x, y)) { continue; }
+					if let Ok(Ok(Some(b))) = guarded(|| rt.block_on(op.get_tile_data(&TileCoord3 { x, y, z: 7 }))) { exp.push((x, y, impl_decode(b.as_slice()).map(|d| dump_tile(&d, true)).unwrap_or_else(|e| e))); } }
+				exp.sort();
+				if got != exp { col.violation("merge-stream-vs-lookup", &desc, &desc, &format!("stream over {bb:?} delivers {:?}, lookups give {:?}", got.iter().map(|g| (g.0, g.1)).collect::<Vec<_>>(), exp.iter().map(|g| (g.0, g.1)).collect::<Vec<_>>())); break; }
+			} }
 		}
 	}
 
